@@ -172,8 +172,13 @@ def run_c10(ctx):
     # that seed's identity; every CERT verifies under the announced key (spec verifier)
     eng = srvmod.Engine(ctx, "C02")
     for k in range(7 if not ctx.thorough else 50):
-        rounds = [srvmod.gen_round(r, 3, 6, None, p_invalid=0.0)]
-        eng.add((8, 0, 3, 0), rounds, 3, seed=rt.hx(seeds[3 + (k % 3)]))
+        sd = seeds[3 + (k % 3)]
+        # requests that name THIS server: SRV = SHA-512(0xff || RFC 8032 public key of the seed)[0..32],
+        # computed here, not by the code under test; the running server must answer them
+        own_srv = hashlib.sha512(b"\xff" + ed25519.secret_to_public(sd)).digest()[:32]
+        rounds = [srvmod.gen_round(r, 3, 6, own_srv, p_invalid=0.0),
+                  [(0, srvmod.valid_ietf(r, srv=own_srv)), (1, srvmod.valid_ietf(r, srv=own_srv)), (2, srvmod.valid_classic(r))]]
+        eng.add((8, 0, 3, 0), rounds, 3, seed=rt.hx(sd))
     eng.run(shards=1)
     eng.judge()
     pks = {}
